@@ -48,6 +48,8 @@ type Case struct {
 	// Compile: also build the test binary with `go test -c` (the in-process
 	// type check runs on every case).
 	Compile bool `json:"compile"`
+	// OutFile: also run both modes with -out FILE and compare with stdout.
+	OutFile bool `json:"out_file"`
 	// Feat are generator features, used for labels only.
 	Feat []string `json:"feat,omitempty"`
 }
@@ -361,15 +363,18 @@ func writeDir(dir string, c Case) error {
 	return nil
 }
 
-// runGen runs test_gen in one mode twice (stdout and -out file) and returns
+// runGen runs test_gen in one mode (with withOut a second time with -out FILE) and returns
 // the output. msg is a property violation, inconc infrastructure trouble.
-func runGen(mode, dir string) (out, msg, inconc string) {
+func runGen(mode, dir string, withOut bool) (out, msg, inconc string) {
 	r := modgen.Run(modRoot, 2*time.Minute, nil, testGen, mode, dir)
 	if r.Err != nil || r.TimedOut {
 		return "", "", "test_gen did not run: " + fmt.Sprint(r.Err)
 	}
 	if r.Exit != 0 {
 		return "", fmt.Sprintf("test_gen %s exited with status %d: %s", mode, r.Exit, firstLine(r.Stderr)), ""
+	}
+	if !withOut {
+		return r.Stdout, "", ""
 	}
 	outFile := filepath.Join(ev.Scratch(), "c18.out")
 	os.Remove(outFile)
@@ -427,7 +432,7 @@ func runCase(c Case) (msg, inconc string) {
 	}
 
 	// ---- Coq ----
-	coqOut, m, ic := runGen("-coq", dir)
+	coqOut, m, ic := runGen("-coq", dir, c.OutFile)
 	if m != "" || ic != "" {
 		return m, ic
 	}
@@ -480,7 +485,7 @@ func runCase(c Case) (msg, inconc string) {
 			moved = append(moved, n)
 		}
 	}
-	goOut, m, ic := runGen("-go", dir)
+	goOut, m, ic := runGen("-go", dir, c.OutFile)
 	for _, n := range moved {
 		if err := os.Rename(filepath.Join(hold, n), filepath.Join(dir, n)); err != nil {
 			return "", "rename back: " + err.Error()
